@@ -560,7 +560,9 @@ impl Array {
                 .collect();
 
             for _ in 0..leading_length {
-                let output_offset = flatten_indices(&indices, &output_dimensions);
+                // the leading indices are shared by the input, and the output, from the first dimension
+                let output_offset =
+                    flatten_indices(&indices[..output_dimensions.len()], &output_dimensions);
                 let output_slice =
                     &mut output_values[output_offset..output_offset + output_group_length];
 
